@@ -305,6 +305,10 @@ def run(ctx):
                 print(f"{desc}: exit {code}, directory {'identical to' if same else 'DIFFERS from'} the fault-free result; output {out!r}")
             if code == 0 and not same:
                 res.violation(f"success-after-failed-{faults[0][0]}:{name}", f"{desc}: the operation reported success but the directory differs from a successful run: {snap_diff(snap, base[name], root, os.path.join(ctx.scratch, 'rec-' + name))}", replay)
+            elif code == 0:
+                # the directory is as after a fault-free run, but a file operation did fail (the
+                # (INJECTED) marker was verified on the recorded call) and nobody was told
+                res.violation(f"success-after-failed-{faults[0][0]}:{name}:same-result", f"{desc}: the operation reported success although the call failed (the directory equals the fault-free result)", replay)
             elif code not in (0, 1, 3, 100) and name in OPS:
                 res.violation(f"crash-on-io-error:{name}", f"{desc}: the process ended with status {code} instead of returning an error: {out!r}", replay)
             elif name in RUNTIME and code != 0:
